@@ -1,12 +1,12 @@
 #!/bin/bash
-# import_round5.sh <round-out-dir> <first-seed-number> [props...]: breaking changes <dir>/Cxx/b<n> -> /verif/seeded/Cxx-<first+n-1> (tools/verify_seed.sh);
-# behaviour-preserving changes <dir>/Cxx/k<n> -> /verif/benign/Cxx-k<n> (tools/verify_benign.sh).  Prints the unconfirmed ones.
-OUT=$1; FIRST=$2; shift 2
+# import_round5.sh <round-out-dir> <first-seed-number> <preserving-offset> [props...]: breaking changes <dir>/Cxx/b<n> -> /verif/seeded/Cxx-<first+n-1> (tools/verify_seed.sh);
+# behaviour-preserving changes <dir>/Cxx/k<n> -> /verif/benign/Cxx-k<n> (tools/verify_benign.sh); preserving change k<n> of the round is stored as k<offset+n>.  Prints the unconfirmed ones.
+OUT=$1; FIRST=$2; KOFF=$3; shift 3
 PROPS=${@:-$(seq -f "C%02g" 1 20)}
 ids=(); kids=()
 for p in $PROPS; do
   for n in 1 2 3; do src=$OUT/$p/b$n; [ -f $src/patch.diff ] || continue; id=$p-$((FIRST+n-1)); d=/verif/seeded/$id; mkdir -p $d; cp $src/patch.diff $src/demo.py $src/meta.json $d/; ids+=($id); done
-  for n in 1 2 3 4 5; do src=$OUT/$p/k$n; [ -f $src/patch.diff ] || continue; id=$p-k$n; d=/verif/benign/$id; mkdir -p $d; cp $src/patch.diff $src/check.py $src/meta.json $d/; kids+=($id); done
+  for n in 1 2 3 4 5; do src=$OUT/$p/k$n; [ -f $src/patch.diff ] || continue; id=$p-k$((KOFF+n)); d=/verif/benign/$id; mkdir -p $d; cp $src/patch.diff $src/check.py $src/meta.json $d/; kids+=($id); done
 done
 : > /tmp/import_round5.log
 [ ${#ids[@]} -gt 0 ] && printf "%s\n" "${ids[@]}" | xargs -P 8 -I{} /verif/tools/verify_seed.sh {} 2>&1 | grep -v "WARNING conda" >> /tmp/import_round5.log
